@@ -376,6 +376,7 @@ func (eng *Engine) registerIntrinsics() {
 	registerFmt(in)
 	registerTime(in)
 	registerStrconv(in)
+	registerRegexp(in)
 	registerLog(in)
 }
 
